@@ -76,15 +76,15 @@ fn lin_case(ctx: &mut Ctx, model: &str, kind: u64, w: &[f64], b: f64, x: &Array2
     ctx.out.case(id, &coq, &[&tag], &desc, Some(fnv(desc.as_bytes())));
 }
 
-fn aff_case(ctx: &mut Ctx, model: &str, kind: u64, mean: &[f64], w: &Array2<f64>, b: &[f64], x: &Array2<f64>, out: &[Vec<f64>], labs: &[usize]) {
+fn aff_case(ctx: &mut Ctx, model: &str, kind: u64, mean: &[f64], scale: &[f64], w: &Array2<f64>, b: &[f64], x: &Array2<f64>, out: &[Vec<f64>], labs: &[usize]) {
     let id = ctx.next_id();
     if !ctx.out.wanted(id) { return; }
     let coq = format!(
-        "CAFF {} {} {} {} {} {} {} {}",
-        cn(id), cn(kind), cvec64(mean), cmat64(&rows_of(&w.view())), cvec64(b), cmat64(&rows_of(&x.view())), cmat64(out), cvecn(labs)
+        "CAFF {} {} {} {} {} {} {} {} {}",
+        cn(id), cn(kind), cvec64(mean), cvec64(scale), cmat64(&rows_of(&w.view())), cvec64(b), cmat64(&rows_of(&x.view())), cmat64(out), cvecn(labs)
     );
     let desc = format!(
-        "{{\"predictor\": {}, \"model\": \"(X - mean) W + b over Q\", \"kind\": {}, \"rows\": {}, \"features\": {}, \"outputs\": {}}}",
+        "{{\"predictor\": {}, \"model\": \"((X - mean) / scale) W + b over Q\", \"kind\": {}, \"rows\": {}, \"features\": {}, \"outputs\": {}}}",
         jstr(model), kind, x.nrows(), x.ncols(), w.ncols()
     );
     ctx.out.bump(&format!("coq_aff_{}", model));
@@ -251,7 +251,7 @@ fn linear_models(ctx: &mut Ctx, rng: &mut Sm64, ninst: usize) {
         match guarded(AssertUnwindSafe(|| MultiTaskElasticNet::params().penalty(0.1).l1_ratio(0.4).fit(&ds2))) {
             Ok(Ok(m)) => {
                 let o: Array2<f64> = m.predict(&pool);
-                aff_case(ctx, "multitask_elasticnet", 0, &[], m.hyperplane(), &m.intercept().to_vec(), &pool, &rows_of(&o.view()), &[]);
+                aff_case(ctx, "multitask_elasticnet", 0, &[], &[], m.hyperplane(), &m.intercept().to_vec(), &pool, &rows_of(&o.view()), &[]);
                 let sc = maxabs(m.hyperplane().as_slice().unwrap_or(&[1.0])) + maxabs(&m.intercept().to_vec());
                 let pred = mk_pred!(m, Array2<f64>, f64, view);
                 metamorph(ctx, rng, "multitask_elasticnet", &format!("p={} tasks={}", p, t), &pred, &pool, &Xl::real(sc));
@@ -306,32 +306,43 @@ fn linear_models(ctx: &mut Ctx, rng: &mut Sm64, ninst: usize) {
 }
 
 // ---------------------------------------------------------------- isotonic regression
-/// regressor / response of a fitted isotonic model (private, no accessor): from its bincode image
-/// (ndarray's serde format: version u8, dim u64, length u64, data)
-fn iso_knots(bytes: &[u8]) -> Option<(Vec<f64>, Vec<f64>)> {
-    fn arr1(b: &[u8], pos: &mut usize) -> Option<Vec<f64>> {
-        if *b.get(*pos)? != 1 { return None; }
-        *pos += 1;
-        let rd = |p: usize| -> Option<u64> { Some(u64::from_le_bytes(b.get(p..p + 8)?.try_into().ok()?)) };
-        let dim = rd(*pos)? as usize;
-        let len = rd(*pos + 8)? as usize;
-        if dim != len { return None; }
-        *pos += 16;
-        let mut v = Vec::new();
-        for _ in 0..len { v.push(f64::from_bits(rd(*pos)?)); *pos += 8; }
-        Some(v)
+/// reader of bincode images (fitted parameters that are private and have no accessor);
+/// ndarray's serde format of an array: version u8 = 1, dim (u64 per axis), length u64, data
+struct Rd<'b> { b: &'b [u8], pos: usize }
+impl<'b> Rd<'b> {
+    fn u8(&mut self) -> Option<u8> { let v = *self.b.get(self.pos)?; self.pos += 1; Some(v) }
+    fn u64(&mut self) -> Option<u64> { let v = u64::from_le_bytes(self.b.get(self.pos..self.pos + 8)?.try_into().ok()?); self.pos += 8; Some(v) }
+    fn f64(&mut self) -> Option<f64> { Some(f64::from_bits(self.u64()?)) }
+    fn arr1(&mut self) -> Option<Vec<f64>> {
+        if self.u8()? != 1 { return None; }
+        let dim = self.u64()? as usize;
+        let len = self.u64()? as usize;
+        if dim != len || len > 1 << 24 { return None; }
+        (0..len).map(|_| self.f64()).collect()
     }
-    let mut pos = 0;
-    let a = arr1(bytes, &mut pos)?;
-    let b = arr1(bytes, &mut pos)?;
-    if pos == bytes.len() { Some((a, b)) } else { None }
+    fn arr2(&mut self) -> Option<Array2<f64>> {
+        if self.u8()? != 1 { return None; }
+        let (r, c) = (self.u64()? as usize, self.u64()? as usize);
+        let len = self.u64()? as usize;
+        if r.checked_mul(c)? != len || len > 1 << 24 { return None; }
+        let v: Option<Vec<f64>> = (0..len).map(|_| self.f64()).collect();
+        Array2::from_shape_vec((r, c), v?).ok()
+    }
+    fn done(&self) -> bool { self.pos == self.b.len() }
+}
+/// regressor / response of a fitted isotonic model
+fn iso_knots(bytes: &[u8]) -> Option<(Vec<f64>, Vec<f64>)> {
+    let mut r = Rd { b: bytes, pos: 0 };
+    let a = r.arr1()?;
+    let b = r.arr1()?;
+    if r.done() { Some((a, b)) } else { None }
 }
 
 fn isotonic_models(ctx: &mut Ctx, rng: &mut Sm64, ninst: usize) {
     for inst in 0..ninst {
         let n = 6 + rng.below(25) as usize;
         let dir = if inst % 3 == 2 { -1.0 } else { 1.0 };
-        let lattice = inst % 2 == 1;
+        let lattice = inst % 4 == 1;
         let xs: Vec<f64> = (0..n).map(|_| if lattice { rng.range(-6, 6) as f64 } else { 4.0 * rng.gauss() }).collect();
         let ys: Vec<f64> = xs.iter().map(|v| dir * v + if lattice { rng.range(-3, 3) as f64 } else { 2.0 * rng.gauss() }).collect();
         let xa = Array2::from_shape_vec((n, 1), xs.clone()).unwrap();
@@ -423,7 +434,7 @@ fn logistic_models(ctx: &mut Ctx, rng: &mut Sm64, ninst: usize) {
                 let o: Array1<usize> = m.predict(&pool3);
                 let classes = m.classes().to_vec();
                 let idx: Vec<usize> = o.iter().map(|l| classes.iter().position(|c| c == l).unwrap_or(usize::MAX >> 8)).collect();
-                aff_case(ctx, "multi_logistic", 1, &[], m.params(), &m.intercept().to_vec(), &pool3, &[], &idx);
+                aff_case(ctx, "multi_logistic", 1, &[], &[], m.params(), &m.intercept().to_vec(), &pool3, &[], &idx);
                 let wv = m.params().clone();
                 let bv = m.intercept().clone();
                 let sc = wv.iter().fold(0.0f64, |a, v| a.max(v.abs())) + maxabs(&bv.to_vec());
